@@ -19,7 +19,8 @@ import (
 
 type c08Script struct {
 	At   int    `json:"at"`   // access count at which the device raises the request
-	Kind string `json:"kind"` // nmi | int
+	Kind string `json:"kind"` // nmi | int | armbp (a debug port: the callback adds Addr to the break points) | newbps (it installs a new set {Addr})
+	Addr uint16 `json:"addr,omitempty"`
 }
 
 type c08Case struct {
@@ -47,6 +48,9 @@ type c08Rig struct {
 	base   [65536]uint8
 	ma, mb progMachine
 	ca, cb z80.CPU
+	// bps: the break points as the Step-driven twin sees them (edited by the host between calls and by device
+	// callbacks during a call, exactly like ca.BreakPoints)
+	bps map[uint16]bool
 }
 
 func (r *c08Rig) setup(c *c08Case) {
@@ -93,12 +97,26 @@ func (r *c08Rig) setup(c *c08Case) {
 		}
 		script := c.Script
 		im, arg := c.IM, c.Arg
+		twin := cpu == &r.cb
 		m.hook = func(n int) {
 			for _, ev := range script {
 				if ev.At == n {
-					if ev.Kind == "nmi" {
+					switch {
+					case ev.Kind == "armbp" || ev.Kind == "newbps":
+						if twin {
+							if ev.Kind == "newbps" || r.bps == nil {
+								r.bps = map[uint16]bool{}
+							}
+							r.bps[ev.Addr] = true
+						} else {
+							if ev.Kind == "newbps" || cpu.BreakPoints == nil {
+								cpu.BreakPoints = map[uint16]struct{}{}
+							}
+							cpu.BreakPoints[ev.Addr] = struct{}{}
+						}
+					case ev.Kind == "nmi":
 						cpu.Interrupt = z80.NMIInterrupt()
-					} else {
+					default:
 						switch im {
 						case 0:
 							cpu.Interrupt = z80.IM0Interrupt(0xFF)
@@ -129,6 +147,22 @@ func twinRun(cpu *z80.CPU, bps map[uint16]bool) (err error, steps int, ok bool) 
 	return nil, steps, false
 }
 
+// twinRunLive is twinRun on the rig's twin with the break points read afresh after every Step (a device callback
+// may have edited them during that Step).
+func (r *c08Rig) twinRunLive() (err error, steps int, ok bool) {
+	r.cb.HALT = false
+	for steps = 1; steps <= c08TwinCap; steps++ {
+		r.cb.Step()
+		if r.bps[r.cb.PC] {
+			return z80.ErrBreakPoint, steps, true
+		}
+		if r.cb.HALT {
+			return nil, steps, true
+		}
+	}
+	return nil, steps, false
+}
+
 type c08Outcome struct {
 	msg       string
 	discarded bool
@@ -142,16 +176,16 @@ type c08Outcome struct {
 func (r *c08Rig) run(c *c08Case) c08Outcome {
 	var o c08Outcome
 	r.setup(c)
-	bps := map[uint16]bool{}
+	r.bps = map[uint16]bool{}
 	if !c.NilBP {
 		for _, b := range c.BPs {
-			bps[b] = true
+			r.bps[b] = true
 		}
 	}
 	for call := 0; call < c.Runs; call++ {
 		if call >= 1 && call-1 < len(c.BPSets) && !c.NilBP {
 			// the host edits its breakpoints between calls
-			bps = map[uint16]bool{}
+			r.bps = map[uint16]bool{}
 			if c.InPlace {
 				for k := range r.ca.BreakPoints {
 					delete(r.ca.BreakPoints, k)
@@ -160,12 +194,12 @@ func (r *c08Rig) run(c *c08Case) c08Outcome {
 				r.ca.BreakPoints = map[uint16]struct{}{}
 			}
 			for _, b := range c.BPSets[call-1] {
-				bps[b] = true
+				r.bps[b] = true
 				r.ca.BreakPoints[b] = struct{}{}
 			}
 			o.bpEdits++
 		}
-		werr, steps, ok := twinRun(&r.cb, bps)
+		werr, steps, ok := r.twinRunLive()
 		if !ok {
 			o.discarded = true
 			return o
@@ -219,7 +253,7 @@ func (r *c08Rig) run(c *c08Case) c08Outcome {
 			}
 		} else {
 			o.bpHits++
-			if !bps[r.ca.PC] {
+			if !r.bps[r.ca.PC] {
 				o.msg = fmt.Sprintf("Run call %d returned ErrBreakPoint at PC=%04x which is not a breakpoint", call+1, r.ca.PC)
 				return o
 			}
@@ -314,6 +348,16 @@ func genC08Case(t *rapid.T, rig *c08Rig, col *stats.Collector) (c c08Case, pcs [
 			c.BPs = append(c.BPs, pcs[rapid.IntRange(0, len(pcs)-1).Draw(t, "bpIdx")])
 		}
 	}
+	if len(acc) > 1 && rapid.IntRange(0, 3).Draw(t, "armBP") == 0 {
+		// a debug port: in the middle of the run a device callback arms a break point (on an address the program
+		// visits later), by adding to the set - which may be nil or empty until then - or by installing a new one
+		j := rapid.IntRange(0, len(pcs)-1).Draw(t, "armIdx")
+		at := 1
+		if j > 0 {
+			at = rapid.IntRange(1, max(1, acc[j-1])).Draw(t, "armAt")
+		}
+		c.Script = append(c.Script, c08Script{At: at, Kind: rapid.SampledFrom([]string{"armbp", "armbp", "newbps"}).Draw(t, "armKind"), Addr: pcs[j]})
+	}
 	if c.Prog != nil && rapid.IntRange(0, 3).Draw(t, "nilIO") == 0 {
 		c.NilIO = true
 	}
@@ -339,7 +383,7 @@ func TestC08(t *testing.T) {
 	col.Sub = "run"
 	defer finish(t, col)
 	col.Rule = "generated terminating programs (statement grammar; or short random byte strings over a HALT-filled memory) x breakpoint sets (nil, empty, start PC, HALT address, inside a multi-byte instruction, " +
-		"random subsets of executed PCs incl. addresses reached through 0xFFFF->0x0000) x 1..6 consecutive Run calls x stale HALT indication x device scripts raising NMI / maskable requests at a chosen " +
+		"random subsets of executed PCs incl. addresses reached through 0xFFFF->0x0000) x 1..6 consecutive Run calls x stale HALT indication x device scripts raising NMI / maskable requests, or arming a break point (added to the set, or a new set installed), at a chosen " +
 		"memory or port access; oracle = twin CPU driven by Step with the stop rule of the property (breakpoint first, then HALT, at least one Step): returned error, registers incl. R, HALT, memory, " +
 		"number of accesses, pending request and port output must be equal after every call; non-trivial = >= 2 Run calls with a breakpoint hit, or a device-raised interrupt; distinct by hash(case)"
 	rig := &c08Rig{}
@@ -373,6 +417,12 @@ func TestC08(t *testing.T) {
 		}
 		if o.intr {
 			col.Label("device-raised-interrupt")
+		}
+		for _, ev := range c.Script {
+			if ev.Kind == "armbp" || ev.Kind == "newbps" {
+				col.Label("break-point-armed-by-a-device-callback")
+				break
+			}
 		}
 		if c.NilIO {
 			col.Label("no-io-device")
